@@ -262,6 +262,48 @@ def check_wrap_whole(template, text):
 
 
 # ---------------------------------------------------------------------------------------------
+# wrap text, implicit repeater on a generated X (c04_gen)
+
+def check_wrap_tree(tree, ctx, lines):
+    """`tree`: the X of `X*` as described in c04_gen; `ctx`: key of c04_gen.CONTEXTS; `lines`: list of str"""
+    from emmet import expand
+    from . import c04_gen
+    abbr = c04_gen.abbr_of(tree, ctx)
+    want = c04_gen.expected(tree, ctx, lines)
+    try:
+        out = expand(abbr, {'text': list(lines), 'options': {'output.format': False, 'markup.href': False}})
+    except Exception as e:
+        return '%r with text %r raised %s: %s (expected %r)' % (abbr, lines, type(e).__name__, e, want)
+    if out != want:
+        return '%r with text %r -> %r, expected %r' % (abbr, lines, out, want)
+    return None
+
+
+GEN_LINE_SETS = [['one', 'two'], ['one', '', '  li*3>a  ', '$1 {x}', '*two'], ['a'], [' $# ', '${1:x}', '\\$'], [], ['', ' '],
+                 ['é \U0001F600', 'p>b', '{x}']]
+
+
+def tree_cases(rng, n_random):
+    from . import c04_gen
+    ctxs = list(c04_gen.CONTEXTS)
+    k = 0
+    for tree in c04_gen.systematic_trees():
+        for ctx in ('top', 'ul'):
+            for lines in GEN_LINE_SETS[:3]:
+                yield (tree, ctx, lines)
+        k += 1
+        yield (tree, ctxs[k % len(ctxs)], GEN_LINE_SETS[3 + k % (len(GEN_LINE_SETS) - 3)])
+    for _ in range(n_random):
+        tree = c04_gen.random_tree(rng)
+        if rng.random() < 0.5:
+            lines = rng.choice(GEN_LINE_SETS)
+        else:
+            lines = [rng.choice(LOOKALIKE_LINES) if rng.random() < 0.7 else
+                     ''.join(rng.choice(ALPHA + 'ab \t') for _ in range(rng.randint(0, 8))) for _ in range(rng.randint(1, 4))]
+        yield (tree, rng.choice(ctxs), lines)
+
+
+# ---------------------------------------------------------------------------------------------
 
 def check_linebreak_chars(template, ch_code):
     """characters that Python's str.splitlines() treats as line boundaries but that are ordinary characters of a
@@ -400,4 +442,21 @@ def run(tier, seed):
     cases5 = [(t, c) for c in LINEBREAK_CODES for t in list(INLINE_TEMPLATES) + list(ATTR_TEMPLATES) + ['li*', 'attr-ph']]
     run_parallel_sorted(c5, 'bounded.c04', 'check_linebreak_chars', cases5, chunk=20)
     c5.done()
-    return [c1, c2, c3, c4, c5]
+
+    from . import c04_gen
+    nt = 4000 if quick else 150000
+    c6 = Clause('wrap-implicit-generated', 'B',
+                'X* for generated X: (a) every combination of a `$#` carrier (none / own text / own attribute / first child text / '
+                'first child attribute / own text+attribute) with an explicitly repeated part (child, later sibling, grandchild, '
+                'group, group holding the carrier, two nested repeaters; count 1-3; with / without a `$#` of its own); (b) seeded '
+                'random trees of <= 8 elements, depth <= 4, names %r, optional class / attributes / text with or without `$#`, '
+                'explicit repeaters *1..*3 on elements and groups; each inside one of the contexts %r'
+                % (c04_gen.NAMES, {k: v[0] for k, v in c04_gen.CONTEXTS.items()}),
+                'all systematic trees in contexts top and ul with 3 line lists + one more context / line list each; %d random '
+                '(tree, context, 0-5 lines from fixed lists, the look-alike pool or random over the alphabet)' % nt,
+                'a case is (tree, context, lines); expected output is built from the tree alone: one copy of X per non-blank line, '
+                'explicit repeaters multiply their content, the trimmed line at every `$#` of the copy if X holds any, otherwise '
+                'once after the own text of the deepest last element of the copy', exhaustive=False)
+    run_parallel_sorted(c6, 'bounded.c04', 'check_wrap_tree', tree_cases(rng, nt), chunk=500)
+    c6.done()
+    return [c1, c2, c3, c4, c5, c6]
